@@ -207,6 +207,11 @@ type vfc03Client struct {
 	// RecvDelay[i] is slept (ignoring the stream context) before frame i is returned; index len(frames) delays the EOF.
 	RecvDelay []time.Duration
 
+	// CapFlipSeed != 0: SupportsSharding / SupportsWithoutReplicaLabels answer pseudo-randomly per call (an endpoint whose
+	// advertised capabilities are refreshed concurrently); Sharding / WithoutRepl are then ignored.
+	CapFlipSeed int64
+	capCalls    atomic.Int64
+
 	calls       atomic.Int64
 	failures    atomic.Int64 // streams (or opens) of this client that ended with a non-EOF error of any origin
 	ctxFailures atomic.Int64 // of those: the fake only relayed that the proxy had cancelled the stream context (HonourCtx)
@@ -241,11 +246,30 @@ func vfc03MakeErr(shape int, msg string) error {
 func (c *vfc03Client) LabelSets() []labels.Labels             { return c.Lsets }
 func (c *vfc03Client) TimeRange() (int64, int64)              { return c.MinT, c.MaxT }
 func (c *vfc03Client) TSDBInfos() []infopb.TSDBInfo           { return nil }
-func (c *vfc03Client) SupportsSharding() bool                 { return c.Sharding }
-func (c *vfc03Client) SupportsWithoutReplicaLabels() bool     { return c.WithoutRepl }
 func (c *vfc03Client) String() string                         { return c.Name }
 func (c *vfc03Client) Addr() (string, bool)                   { return c.Name, c.Local }
 func (c *vfc03Client) Matches(matches []*labels.Matcher) bool { return true }
+
+func (c *vfc03Client) capFlip() bool {
+	x := uint64(c.CapFlipSeed)*0x9e3779b97f4a7c15 + uint64(c.capCalls.Add(1))*0xbf58476d1ce4e5b9
+	x ^= x >> 31
+	x *= 0x94d049bb133111eb
+	return (x>>33)&1 == 1
+}
+
+func (c *vfc03Client) SupportsSharding() bool {
+	if c.CapFlipSeed != 0 {
+		return c.capFlip()
+	}
+	return c.Sharding
+}
+
+func (c *vfc03Client) SupportsWithoutReplicaLabels() bool {
+	if c.CapFlipSeed != 0 {
+		return c.capFlip()
+	}
+	return c.WithoutRepl
+}
 
 func (c *vfc03Client) LabelNames(context.Context, *storepb.LabelNamesRequest, ...grpc.CallOption) (*storepb.LabelNamesResponse, error) {
 	return &storepb.LabelNamesResponse{}, nil
